@@ -43,7 +43,7 @@ AXES = {
     "q": ["none", "fixed", "po2"], "ema_freeze_delay": [None, 0, 5],
 }
 PROGRAMS = ["conv_bn", "dw_bn", "conv_bn_relu_dense", "conv_bn_conv_bn", "diamond_add", "conv_two_consumers",
-            "conv_nobias_bn", "conv_act_bn"]
+            "conv_nobias_bn", "conv_act_bn", "conv_bn_dense_statsbn"]
 
 
 def bound(tier):
@@ -67,6 +67,11 @@ def enumerate_cases(tier, seed):
     for si in range(3):
       for q in ("fixed", "po2"):
         out.append(dict(sub="model", prog=prog, stats=si, q=q, _seed=seed))
+        if prog in ("conv_bn_relu_dense", "conv_bn_dense_statsbn") and q == "fixed":
+          # the folded model in a non-initial state before it is unfolded: layers that are NOT folded frozen (fine-tuning),
+          # the whole model frozen (export): unfolding is a function of the weights, not of their trainable flags
+          for st in ("head-frozen", "model-frozen"):
+            out.append(dict(sub="model", prog=prog, stats=si, q=q, unfold_state=st, _seed=seed))
   # history: folded layers built WITHOUT a bias quantizer, then populate_bias_quantizer_from_accumulator, then
   # inference / unfolding: the quantizer the layer reports for its bias is the one it applies
   for cls in ("QConv2DBatchnorm", "QDepthwiseConv2DBatchnorm"):
@@ -220,6 +225,10 @@ def build_program(prog):
   elif prog == "conv_bn_relu_dense":
     x = L.Conv2D(2, 2, name="c1")(inp); x = L.BatchNormalization(name="b1")(x); x = L.ReLU(name="r1")(x)
     x = L.Flatten(name="f")(x); x = L.Dense(3, name="d1")(x); fold = [("c1", "b1")]
+  elif prog == "conv_bn_dense_statsbn":
+    # a stand-alone batch normalisation without affine parameters has weights (the statistics) but no trainable one
+    x = L.Conv2D(2, 2, name="c1")(inp); x = L.BatchNormalization(name="b1")(x); x = L.Flatten(name="f")(x)
+    x = L.Dense(3, name="d1")(x); x = L.BatchNormalization(center=False, scale=False, name="b2")(x); fold = [("c1", "b1")]
   elif prog == "conv_bn_conv_bn":
     x = L.Conv2D(2, 2, name="c1")(inp); x = L.BatchNormalization(name="b1")(x)
     x = L.DepthwiseConv2D(2, name="c2")(x); x = L.BatchNormalization(name="b2")(x); fold = [("c1", "b1"), ("c2", "b2")]
@@ -297,6 +306,12 @@ def run_model(case):
           [qm.get_layer(c).__class__.__name__ for c, _ in fold],))
     else:
       # --- unfolding (quantizers active): exact ----------------------------------------------------
+      if case.get("unfold_state") == "head-frozen":
+        for l in qm.layers:
+          if l.name not in [c for c, _ in fold] and l.get_weights():
+            l.trainable = False
+      elif case.get("unfold_state") == "model-frozen":
+        qm.trainable = False
       um = bn_folding_utils.unfold_model(qm)
       yq = [np.asarray(qm(tf.constant(x), training=False), dtype=np.float32) for x in xs]
       yu = [np.asarray(um(tf.constant(x), training=False), dtype=np.float32) for x in xs]
@@ -327,7 +342,7 @@ def run_model(case):
     if any(not np.allclose(a, b, rtol=0, atol=1e-6) for a, b in zip(yq, y0)):
       bad("nothing-to-fold", "nothing is foldable, but model_quantize(enable_bn_folding=True) changed the predictions")
   return {"evals": evals, "transitions": evals, "nontrivial": int(bool(fold)),
-          "state": "model:%s:%d:%s" % (case["prog"], si, case["q"]), "digest": common.digest(*y0), "violations": viol,
+          "state": "model:%s:%d:%s:%s" % (case["prog"], si, case["q"], case.get("unfold_state", "")), "digest": common.digest(*y0), "violations": viol,
           "traces": evals, "sample": {"sub": "model", "program": case["prog"], "foldable_pairs": fold}}
 
 
